@@ -661,7 +661,9 @@ class Periph2(LiteXModule):
         self.comb += self.ev.tick.trigger.eq(self.trig)
 
 class PinnedFirst(LiteXModule):
-    def __init__(self): self.r = CSRStorage(8, name="r"); self.s = CSRStatus(40, name="s")
+    """a register pinned to a slot of its bank (n=) so that a hole remains before it: the gatherer fills it with reserved placeholders, every publication
+    (csr.h, JSON, CSV, SVD, generated documentation) must still give the register the address the bank decodes"""
+    def __init__(self): self.r = CSRStorage(8, name="r"); self.s = CSRStatus(40, name="s"); self.late = CSRStorage(8, name="late", n=5); self.tail = CSRStatus(8, name="tail")
 
 def build_ext(bus_standard="wishbone", csr_dw=32, paging=0x800, ordering="big", with_mem=False, cpu=None, fixed=False, irq=False):
     if cpu is None and not fixed and not irq:
